@@ -154,7 +154,7 @@ def expressible(doc, fmt):
     if k == "deck":
         return fmt in ("pptx", "odp", "odg")
     if k == "book":
-        return fmt in ("xlsx", "ods")
+        return fmt in ("xlsx", "ods", "xls")
     if k == "pages":
         return fmt in ("pdf", "txt", "md", "csv", "tsv", "json", "rtf", "epub")
     return False
@@ -180,6 +180,9 @@ def render(doc, fmt) -> bytes:
     if k == "deck":
         return {"pptx": wp.write_pptx, "odp": odf.write_odp, "odg": odf.write_odg}[fmt](doc)
     if k == "book":
+        if fmt == "xls":
+            from .writers import xls as wxls
+            return wxls.write_xls(doc)
         return {"xlsx": wx.write_xlsx, "ods": odf.write_ods}[fmt](doc)
     if k == "pages":
         if fmt == "pdf":
@@ -197,7 +200,7 @@ def render(doc, fmt) -> bytes:
 
 EXTRACTOR = {"docx": "read_docx", "odt": "read_odt", "html": "read_html", "mhtml": "read_mhtml", "epub": "read_epub",
              "rtf": "read_rtf", "pptx": "read_pptx", "odp": "read_odp", "odg": "read_odg", "xlsx": "read_xlsx",
-             "ods": "read_ods", "pdf": "read_pdf", "txt": "read_plain_text", "md": "read_plain_text",
+             "ods": "read_ods", "xls": "read_xls", "pdf": "read_pdf", "txt": "read_plain_text", "md": "read_plain_text",
              "csv": "read_plain_text", "tsv": "read_plain_text", "json": "read_plain_text"}
 
 
